@@ -234,7 +234,7 @@ def peval(node: ast.AST, env: Optional[Dict[str, object]] = None, funcs: Optiona
         return lam
     if isinstance(node, ast.Call):
         if node.keywords and not (isinstance(node.func, ast.Attribute) and node.func.attr in ("encode", "decode", "to_bytes", "sub", "split", "subn")) \
-                and not ((dotted(node.func) or "") in STDLIB):
+                and not ((dotted(node.func) or "") in STDLIB) and not ((dotted(node.func) or "") in ("sorted", "min", "max", "enumerate", "int", "dict", "sum", "str", "bytes")):
             raise NotPure("keywords in call " + src(node))
         kw = {k.arg: ev(k.value) for k in node.keywords if k.arg}
         fn = dotted(node.func)
@@ -262,7 +262,7 @@ def peval(node: ast.AST, env: Optional[Dict[str, object]] = None, funcs: Optiona
                     raise NotPure("isinstance class")
             if fn in ("range",) and args and max(abs(int(x)) for x in args) > 1 << 20:
                 raise NotPure("range too large")
-            return _guard(lambda: _BUILTINS[fn](*args))
+            return _guard(lambda: _BUILTINS[fn](*args, **kw))
         if isinstance(node.func, ast.Attribute) and isinstance(node.func.value, ast.Name):
             try:
                 recv0 = ev(node.func.value)
